@@ -32,7 +32,7 @@ def required_buckets(tier):
     for u in ('L', 'g', 'mol'):
         req.append(f'C11/fill_to/{u}/')
     req += ['C03/dilute/infeasible:above_current/refused', 'C03/dilute/infeasible:capacity/refused',
-            'C03/fill_to/L/infeasible:capacity/refused', 'C11/fill_to/solvent_kind/enzyme', 'C11/fill_to/solvent_kind/solid']
+            'C03/fill_to/L/infeasible:capacity/refused', 'C11/fill_to/solvent_kind/enzyme', 'C11/fill_to/solvent_kind/solid', 'C11/second_lot_of_an_enzyme']
     return req
 
 
@@ -194,3 +194,30 @@ def constructive(rng, case, idx):
             keep = c
             w.do('Container.fill_to', {'op': 'fill_to', 'init': [[s.name, qq] for s, qq in init], 'cap': capq,
                                        'solvent': fs.name, 'q': q}, lambda: keep.fill_to(fs, q))
+        # ---------------- the same preparation with another lot of the enzyme (same name, other specific activity, the same
+        #                  number of units): each lot weighs what *its* activity says
+        if comp.endswith('enz') and enz and rng.random() < 0.6:
+            from pv.gen import declared_enzyme
+            lot_a = [s_ for s_, _ in init if s_.is_enzyme()][0]
+            lot_b = declared_enzyme(pp.Substance, lot_a.name, f'{R.specific_activity_of(lot_a) * rng.choice([2.5, 0.4, 10.0]):.6g} U/g')
+            init_b = [((lot_b if s_ is lot_a else s_), q_) for s_, q_ in init]
+            with M.active(case):
+                try:
+                    cb = pp.Container('x', initial_contents=init_b)
+                except Exception:
+                    cb = None
+            if cb is not None and R.per(lot_b, 'g') > 0:
+                M.bucket('C11/second_lot_of_an_enzyme')
+                fs = solvent
+                cur_g = R.measure(cb.contents, 'g')
+                qg = spell(rng, cur_g * rng.uniform(1.2, 3.0), 'g')
+                w.do('Container.fill_to', {'op': 'fill_to', 'init': [[s_.name, q_] for s_, q_ in init_b], 'solvent': fs.name, 'q': qg,
+                                           'second_lot': True}, lambda: cb.fill_to(fs, qg))
+                if R.per(solute, 'g') > 0 and solute != solvent:
+                    top_b = R.canon(solute, cb.contents[solute]) * R.per(solute, 'g')
+                    cur_b = top_b / cur_g
+                    cgg = spell_conc(rng, cur_b * rng.uniform(0.3, 0.8), 'g', 'g', solute)
+                    if cur_b * 1e10 > 1e5:
+                        w.do('Container.dilute', {'op': 'dilute', 'init': [[s_.name, q_] for s_, q_ in init_b], 'solute': solute.name,
+                                                  'conc': cgg, 'solvent': solvent.name, 'second_lot': True},
+                             lambda: cb.dilute(solute, cgg, solvent), expect={'op': 'Container.dilute', 'must': 'accept'})
